@@ -44,6 +44,8 @@ def c01(res: CheckResult) -> None:
     random_unit(res, "random programs beyond the exhaustive bounds", list(F.fam_random(res.tier, rng, "pre")), ic)
     call_unit(res, "contract errors deriving from BaseException, the same contract violated three times in a row",
               list(F.fam_errbase(res.tier, rng)), ic)
+    call_unit(res, "calls passing an unexpected keyword named like a reserved name, then ordinary calls",
+              list(F.fam_badkw(res.tier, rng)), ic)
     def_unit(res, "inherited precondition groups incl. overrides under foreign decorators: calls judged against the "
                   "effective DNF for all truth assignments", list(DF.fam_foreign_hier(res.tier, rng)), ic,
              verdicts=True, rng=rng)
@@ -76,6 +78,8 @@ def c02(res: CheckResult) -> None:
     random_unit(res, "random programs beyond the exhaustive bounds", list(F.fam_random(res.tier, rng, "post")), ic)
     call_unit(res, "contract errors deriving from BaseException, the same contract violated three times in a row",
               list(F.fam_errbase(res.tier, rng)), ic)
+    call_unit(res, "calls passing an unexpected keyword named like a reserved name, then ordinary calls",
+              list(F.fam_badkw(res.tier, rng)), ic)
     def_unit(res, "inherited postconditions incl. overrides under foreign decorators: calls judged against the "
                   "effective conjunction for all truth assignments", list(DF.fam_foreign_hier(res.tier, rng)), ic,
              verdicts=True, rng=rng)
@@ -151,6 +155,8 @@ def c11(res: CheckResult) -> None:
               list(F.fam_inv_async(res.tier, rng)), ic)
     call_unit(res, "contract errors deriving from BaseException, the same contract violated three times in a row",
               list(F.fam_errbase(res.tier, rng)), ic)
+    call_unit(res, "calls passing an unexpected keyword named like a reserved name, then ordinary calls",
+              list(F.fam_badkw(res.tier, rng)), ic)
 
 
 @check("C12")
